@@ -159,6 +159,9 @@ pub struct Sim {
     /// picoseconds of simulated time per node
     pub tau_ps: u64,
     pub frozen_polls_left: u64,
+    /// the clock advances by this much on every read (a thread can lose the CPU between two reads)
+    pub read_step_ns: u64,
+    pub clock_reads: u64,
     pub clock_events: Vec<ClockEvent>,
     // knobs
     pub poll_interval: Option<u64>,
@@ -256,6 +259,8 @@ impl Sim {
             now_ns: 1_000_000_000, // the simulated process has been up for a second
             tau_ps: 250_000,
             frozen_polls_left: 0,
+            read_step_ns: 0,
+            clock_reads: 0,
             clock_events: Vec::new(),
             poll_interval: None,
             initial_hash_mb: None,
@@ -591,7 +596,14 @@ pub fn elapsed(epoch: &Epoch) -> Option<Duration> {
     if epoch.id == NO_EPOCH {
         return None;
     }
-    with_sim(|s| s.searches.get(epoch.id).map(|r| Duration::from_nanos(s.now_ns - r.epoch_ns))).flatten()
+    with_sim(|s| {
+        s.clock_reads += 1;
+        if s.read_step_ns > 0 && s.frozen_polls_left == 0 {
+            s.now_ns += s.read_step_ns;
+        }
+        s.searches.get(epoch.id).map(|r| Duration::from_nanos(s.now_ns - r.epoch_ns))
+    })
+    .flatten()
 }
 
 // ---- H6: node tick, poll interval ----------------------------------------------------------------
